@@ -17,7 +17,7 @@ RULE = (
     "build took none."
 )
 ASSUMPTIONS = ["the COLR / SVG-document evaluators of C01/C02 interpret both fonts", "allowance per DESIGN 2.4 with tau = 1.5 * t * nseg"]
-N = {"quick": 120, "thorough": 2500}
+N = {"quick": 160, "thorough": 3200}
 FORMATS = ("glyf_colr_1", "glyf_colr_1", "glyf_colr_0", "picosvg")
 
 
@@ -33,6 +33,8 @@ def near_miss_set(r, fmt, tol, scale_font_per_vb, vb):
     (tolerance is in font units for COLR and in viewBox units for OT-SVG)."""
     n = r.randint(3, 7)
     cx, cy, s = vb * r.uniform(0.3, 0.5), vb * r.uniform(0.3, 0.5), vb * r.uniform(0.08, 0.18)
+    if r.random() < 0.5:
+        s *= 0.25  # a small first copy leaves room for much larger ones
     a0 = r.uniform(0, 6.28)
     base = [(cx + s * r.uniform(0.6, 1) * math.cos(a0 + 2 * math.pi * i / n), cy + s * r.uniform(0.6, 1) * math.sin(a0 + 2 * math.pi * i / n)) for i in range(n)]
     tol_vb = tol if fmt == "picosvg" else tol / scale_font_per_vb
@@ -45,10 +47,15 @@ def near_miss_set(r, fmt, tol, scale_font_per_vb, vb):
             mir = r.random() < 0.25
             dx, dy = r.uniform(-0.15, 0.25) * vb, r.uniform(-0.15, 0.25) * vb
             k = r.choice([0.0, 0.3, 0.9, 1.1, 3.0])
-            metas.append(k)
+            # later copies may also be (much) larger than the first one, with noise sized against the tolerance in
+            # *their* units or in the donor's (tolerance x scale): a tolerance test done in the wrong space shows here
+            sc = 1.0 if (g == 0 and c == 0) or r.random() < 0.5 else r.choice([2.0, 4.0, 8.0, 10.0, 0.25])
+            if sc > 1 and r.random() < 0.6:
+                k = k * sc
+            metas.append(round(k, 2))
             pts = []
             for (x, y) in base:
-                x0, y0 = x - cx, y - cy
+                x0, y0 = (x - cx) * sc, (y - cy) * sc
                 if mir:
                     x0 = -x0
                 xr = x0 * math.cos(ang) - y0 * math.sin(ang)
@@ -58,6 +65,30 @@ def near_miss_set(r, fmt, tol, scale_font_per_vb, vb):
             body += f'<path d="{d}" fill="{svggen.rnd_color(r, None, allow_var=False)}"/>'
         out.append(f'<svg xmlns="http://www.w3.org/2000/svg" viewBox="0 0 {vb} {vb}"><defs/>{body}</svg>')
     return out, {"noise_over_tolerance": metas}
+
+
+def tiny_donor_set(r, tol_vb, vb):
+    """A tiny polygon first, then copies 20-30x larger whose vertices are off by a chosen multiple of
+    tolerance x scale: inside the tolerance when measured in the donor's space, far outside it where the copy is painted."""
+    n = r.randint(3, 4)
+    rad = vb * 0.01
+    cx, cy = vb * 0.1, vb * 0.1
+    a0 = r.uniform(0, 6.28)
+    base = [(cx + rad * r.uniform(0.7, 1) * math.cos(a0 + 2 * math.pi * i / n), cy + rad * r.uniform(0.7, 1) * math.sin(a0 + 2 * math.pi * i / n)) for i in range(n)]
+    d0 = "M" + " L".join(f"{x:.4f},{y:.4f}" for x, y in base) + " Z"
+    out, metas = [], []
+    for g in range(2):
+        body = f'<path d="{d0}" fill="#cc2200"/>' if g == 0 else ""
+        sc = r.choice([25.0, 35.0, 45.0])
+        k = r.choice([0.45, 0.45, 0.3, 0.0, 1.5])
+        amp = k * tol_vb * sc
+        metas.append([sc, k])
+        bx, by = vb * r.uniform(0.5, 0.55), vb * r.uniform(0.5, 0.55)
+        pts = [(bx + (x - cx) * sc + r.uniform(-amp, amp), by + (y - cy) * sc + r.uniform(-amp, amp)) for x, y in base]
+        d = "M" + " L".join(f"{x:.4f},{y:.4f}" for x, y in pts) + " Z"
+        body += f'<path d="{d}" fill="#0033cc"/>'
+        out.append(f'<svg xmlns="http://www.w3.org/2000/svg" viewBox="0 0 {vb} {vb}"><defs/>{body}</svg>')
+    return out, {"scale_and_noise_over_tolerance_x_scale": metas}
 
 
 def gen_case(case):
@@ -71,7 +102,21 @@ def gen_case(case):
         cfg["clip_to_viewbox"] = False
     mode = r.random()
     meta = {"fmt": fmt}
-    if mode < 0.15:
+    if mode < 0.07:
+        svgs = svggen.paint_varied_reuse_set(r, r.randint(1, 3), defaults=True)
+        if tol in (0.0, -1):
+            cfg["reuse_tolerance"] = 0.1
+        if r.random() < 0.75:
+            fmt = "picosvg"  # where per-use paint attributes exist
+            cfg["color_format"] = fmt
+        meta.update(mode="paint-varied-reuse", fmt=fmt)
+    elif mode < 0.15:
+        vb = r.choice([128, 1000])
+        em = cfg["ascender"] - cfg["descender"]
+        t_ = max(tol, 0.05)
+        svgs, m = tiny_donor_set(r, t_ if fmt == "picosvg" else t_ / (em / vb), vb)
+        meta.update(mode="tiny-donor-huge-near-miss", **m)
+    elif mode < 0.27:
         svgs, gcfg, m = svggen.grid_recurrence_set(r, r.randint(2, 3), pal=pal)
         keep_clip = cfg["clip_to_viewbox"]
         cfg.update(gcfg)
@@ -80,21 +125,21 @@ def gen_case(case):
         if tol == 0.0:
             cfg["reuse_tolerance"] = 0.1
         meta.update(mode="grid-recurrence", transforms=m["transforms"])
-    elif mode < 0.3:
+    elif mode < 0.42:
         vb = r.choice([24, 128, 1000])
         em = cfg["ascender"] - cfg["descender"]
         svgs, m = near_miss_set(r, fmt, max(tol, 0.05), em / vb, vb)
         meta.update(mode="near-miss", **m)
-    elif mode < 0.45:
+    elif mode < 0.55:
         svgs, m = svggen.recurrence_set(r, r.randint(2, 3), pal, same_vb=True, tkinds=["bigscale", "bigscale", "uscale", "rotate"], vb_choices=(128, 1000))
         meta.update(mode="bigscale", transforms=m["transforms"])
-    elif mode < 0.55:
+    elif mode < 0.63:
         # donor first, copies at ~1/100 scale: the inverse transform for gradients leaves Fixed range
         svgs, m = svggen.recurrence_set(r, 2, pal, same_vb=True, vb_choices=(1000,))
         tiny = f"translate({r.uniform(300, 700):.1f} {r.uniform(300, 700):.1f}) scale({r.uniform(0.004, 0.02):.4f})"
         svgs[1] = svgs[1].replace('transform="', f'transform="{tiny} ', 1)
         meta.update(mode="tinyscale")
-    elif mode < 0.7:
+    elif mode < 0.76:
         svgs, m = svggen.recurrence_set(r, r.randint(2, 4), pal, same_vb=False, vb_choices=(24, 128, 1000, 4000))
         meta.update(mode="mixed-viewbox", transforms=m["transforms"])
     else:
@@ -173,7 +218,7 @@ def run_case(case):
                     res["tags"].append("cli-lane")
                 if b is None:
                     out = info["output"]
-                    if any(k in out for k in ("OverflowError", "does not fit in format", "format requires", "already maps to", "Expected uniform scale")):
+                    if rc.cli_refusal(out) or any(k in out for k in ("already maps to", "Expected uniform scale")):
                         outcome[label] = ("refused", out[-300:])
                     else:
                         outcome[label] = ("raised", f"CLI exit {info['rc']}", out)
